@@ -17,6 +17,11 @@ type BatchedPrivateIssuer struct {
 }
 
 func NewBatchedPrivateIssuer(key *oprf.PrivateKey) *BatchedPrivateIssuer {
+	if key != nil {
+		// The key caches its public key on first use; compute it now so that
+		// concurrent calls on the issuer only read the key.
+		key.Public()
+	}
 	return &BatchedPrivateIssuer{
 		tokenKey: key,
 	}
